@@ -4,95 +4,26 @@
 //   "<op#> <kind> <clock before> <clock after> <activity start> <activity finish>"          (%.17g)
 // Model and options come from the command line (--cfg=network/model:..., --cfg=host/model:ptask_L07 ...).
 //
-// stdin, platform part:
-//   H <name> <cores> <npstates> <speed0> ...       host
-//   L <name> <bw> <lat> <S|F|D>                    link: Shared, Fatpipe, split-Duplex
-//   R <src> <dst> <sym 0|1> <n> (<link> <N|U|D>)*  route
-//   D <host> <name> <read_bw> <write_bw>           disk
-//   X                                              end of platform (seal)
+// stdin: platform part (see plat.hpp), then
 // ops:
 //   E <host> <pstate> <threads> <bound|-1> <flops>    exec
 //   S <duration>                                      sleep
 //   C <src> <dst> <bytes>                             direct host-to-host comm
 //   I <disk> <R|W> <bytes>                            I/O
 //   P <n> (<host> <flops>)*                           parallel task of pure computation
-#include <simgrid/s4u.hpp>
+#include "plat.hpp"
 #include <cstdio>
-#include <iostream>
-#include <map>
-#include <sstream>
-#include <vector>
 namespace sg4 = simgrid::s4u;
 
 int main(int argc, char** argv)
 {
   sg4::Engine e(&argc, argv);
   setvbuf(stdout, nullptr, _IOLBF, 0);
-  auto* zone = e.get_netzone_root()->add_netzone_full("z");
-  std::map<std::string, sg4::Host*> hosts;
-  std::map<std::string, sg4::Link*> links;
-  std::map<std::string, sg4::SplitDuplexLink*> dlinks;
-  std::map<std::string, sg4::Disk*> disks;
-  std::vector<std::string> ops;
-  std::string line;
-  bool plat_done = false;
-  sg4::Host* first = nullptr;
-  while (std::getline(std::cin, line)) {
-    if (line.empty())
-      continue;
-    if (plat_done) {
-      ops.push_back(line);
-      continue;
-    }
-    std::istringstream is(line);
-    std::string k;
-    is >> k;
-    if (k == "H") {
-      std::string name;
-      int cores, np;
-      is >> name >> cores >> np;
-      std::vector<double> sp(np);
-      for (auto& s : sp)
-        is >> s;
-      hosts[name] = zone->add_host(name, sp)->set_core_count(cores);
-      if (not first)
-        first = hosts[name];
-    } else if (k == "L") {
-      std::string name, pol;
-      double bw, lat;
-      is >> name >> bw >> lat >> pol;
-      if (pol == "D") {
-        dlinks[name] = zone->add_split_duplex_link(name, bw);
-        dlinks[name]->set_latency(lat);
-      } else {
-        links[name] = zone->add_link(name, bw)->set_latency(lat);
-        if (pol == "F")
-          links[name]->set_sharing_policy(sg4::Link::SharingPolicy::FATPIPE);
-      }
-    } else if (k == "R") {
-      std::string s, d;
-      int sym, n;
-      is >> s >> d >> sym >> n;
-      std::vector<sg4::LinkInRoute> r;
-      for (int i = 0; i < n; i++) {
-        std::string ln, dir;
-        is >> ln >> dir;
-        if (dlinks.count(ln))
-          r.emplace_back(dlinks[ln], dir == "U" ? sg4::LinkInRoute::Direction::UP : sg4::LinkInRoute::Direction::DOWN);
-        else
-          r.emplace_back(links.at(ln));
-      }
-      zone->add_route(hosts.at(s), hosts.at(d), r, sym != 0);
-    } else if (k == "D") {
-      std::string h, name;
-      double r, w;
-      is >> h >> name >> r >> w;
-      disks[name] = hosts.at(h)->add_disk(name, r, w);
-    } else if (k == "X") {
-      zone->seal();
-      plat_done = true;
-    }
-  }
+  Plat plat   = read_platform(e, std::cin);
+  auto& hosts = plat.hosts;
+  auto& disks = plat.disks;
+  auto& ops   = plat.rest;
+  auto* first = plat.host_list.front();
   first->add_actor("driver", [&]() {
     long n = 0;
     for (auto const& l : ops) {
@@ -115,6 +46,10 @@ int main(int argc, char** argv)
         ex->start()->wait();
         st = ex->get_start_time();
         ft = ex->get_finish_time();
+        double t1 = sg4::Engine::get_clock();
+        hosts.at(h)->set_pstate(0); // every activity starts from the same platform state
+        printf("%ld %s %.17g %.17g %.17g %.17g\n", n++, k.c_str(), t0, t1, st, ft);
+        continue;
       } else if (k == "S") {
         double d;
         is >> d;
